@@ -194,15 +194,16 @@ class BLOB(Element):
         )
 
     def to_set_message(self):
-        if self.value is None:
+        value = self.value
+        if value is None:
             return self.set_message_class(
                 name=self._definition.name, value=None, format="", size=0
             )
         return self.set_message_class(
             name=self._definition.name,
-            value=self.value.binary_base64,
-            format=self.value.format,
-            size=self.value.size,
+            value=value.binary_base64,
+            format=value.format,
+            size=value.size,
         )
 
     def set_value_from_message(self, msg):
